@@ -70,6 +70,64 @@ def run(chk):
     boxcar(chk, repo)
 
 
+class _Env(symx.Env):
+    """symx.Env that reads every numpy spelling of "the positions where an element-wise condition holds" as the engine reads the
+    one-argument np.where(cond): np.nonzero(cond) and np.flatnonzero(cond) (numpy documents where(cond) as asarray(cond).nonzero();
+    flatnonzero is nonzero(ravel(cond))[0]) and the method cond.nonzero().  In the element-wise view of the engine the index set, the
+    tuple that holds it and its single member are all the condition itself (symx.Mask), exactly as for np.where.  Private helpers
+    entered from here are evaluated by the same class (the engine builds them with type(self))."""
+
+    _POSITIONS = ("numpy.nonzero", "numpy.flatnonzero")
+
+    def call(self, c, stmt_level=False):
+        nm = call_name(c)
+        if nm in ("nonzero", "flatnonzero") and not c.keywords:
+            d = dotted_name(c.func)
+            full = self.se.repo.resolve_name(self.mod, d) if d else ""
+            if full in self._POSITIONS and len(c.args) == 1 and not isinstance(c.args[0], ast.Starred):
+                m = self.ev(c.args[0])
+                if isinstance(m, symx.Mask):
+                    return m
+                if m is True or m is False:
+                    return symx.Mask(sp.true if m else sp.false)
+                return symx.Opaque(full)            # (what the engine makes of a numpy routine it does not interpret)
+            if nm == "nonzero" and not c.args and isinstance(c.func, ast.Attribute) and not full.startswith("numpy") \
+                    and not any(isinstance(x, ast.Call) for x in ast.walk(c.func.value)):
+                try:
+                    m = self.ev(c.func.value)
+                except symx.Unsupported:
+                    m = None
+                if isinstance(m, symx.Mask):
+                    return m
+        return super().call(c, stmt_level)
+
+
+class _SymEval(symx.SymEval):
+    """SymEval running on _Env (same entry protocol as symx.SymEval.run)"""
+
+    def run(self, fi, args, flags=None, depth=0, pins=None):
+        flags = dict(flags or {})
+        env = _Env(self, fi, fi.module, dict(args), flags, depth=depth)
+        env.pins = dict(pins or {})
+        names = [p.lstrip("*") for p in fi.params]
+        for p in fi.params:
+            pn = p.lstrip("*")
+            if pn not in env.vars:
+                if pn in fi.defaults:
+                    env.vars[pn] = env.ev(fi.defaults[pn])
+                elif p.startswith("**"):
+                    env.vars[pn] = {}
+                elif p.startswith("*"):
+                    env.vars[pn] = ()
+        for k, v in flags.items():
+            if k in names:
+                env.vars[k] = v
+        rets = env.exec_body(fi.node.body, sp.true)
+        env.finish_returns(rets)
+        self.last_env = env
+        return env.result
+
+
 def wmom(chk, repo):
     fi = repo.func(ST + "wmom")
     chk.analysed_unit(fi.qualname)
@@ -78,7 +136,7 @@ def wmom(chk, repo):
     for im in (False, True):
         for calcerr in (False, True):
             for sdev in (False, True):
-                se = symx.SymEval(repo, opaque_tests=False)
+                se = _SymEval(repo, opaque_tests=False)
                 se.assume = {"call:isscalar": True, "text:not np.isscalar(werr) and len(werr) < ndim": False}
                 args = {pos[0]: x, pos[1]: w}
                 if im:
@@ -599,7 +657,7 @@ def interplin(chk, repo):
     fi = repo.func(ST + "interplin")
     chk.analysed_unit(fi.qualname)
     v, x, u = symx.symbols("v", "x", "u")
-    se = symx.SymEval(repo, opaque_tests=False)
+    se = _SymEval(repo, opaque_tests=False)
     pos = [p for p in fi.params if not p.startswith("*")]
     r = se.run(fi, dict(zip(pos, (v, x, u))), {})
     AT = sp.Function("AT")
@@ -1765,6 +1823,8 @@ class _PX:
         if isinstance(v, sp.Basic):
             if v.is_number:
                 return bool(v != 0)
+            if _head(v) in ("COUNT", "SIZE"):
+                return REL[ast.NotEq](v, sp.Integer(0))     # a number of elements used as a test (`if w.size:` / `not w.size`) is `!= 0`
             return v
         if isinstance(v, _Opq):
             return sp.Symbol("TEST<%s>" % norm(e))
@@ -2365,25 +2425,39 @@ def _stat_role(t, wmom_q):
 
 def _count_fact(t, truth):
     """(mask, kind, other) for a path constraint about the number of selected points: kind in zero / nonzero / eq / ne / ge / lt"""
+    r = _count_facts(t, truth)
+    return r[0] if r else None
+
+
+_SWAP = {"LT": "GT", "LE": "GE", "GT": "LT", "GE": "LE", "EQ": "EQ", "NE": "NE"}
+
+
+def _count_facts(t, truth):
+    """every reading (mask, kind, other) of a path constraint as a statement about the number of selected points.  The count may stand
+    on either side of the relation (`n == w.size` is `w.size == n`, `n <= w.size` is `w.size >= n`); a count used as a test by itself
+    is `count != 0`; a relation between two counts (the points kept now against the points kept by the pass before) can be read from
+    either side and both readings are given, the left-hand one first: the caller takes the one whose mask is a keep selection"""
     h = _head(t)
     if h == "NOT":
-        return _count_fact(t.args[0], not truth)
+        return _count_facts(t.args[0], not truth)
+    if h == "COUNT":
+        t, h = REL[ast.NotEq](t, sp.Integer(0)), "NE"
     if h not in RELNAMES:
-        return None
-    a, b = t.args
-    if _head(a) != "COUNT":
-        if _head(b) != "COUNT":
-            return None
-        a, b = b, a
-        h = {"LT": "GT", "LE": "GE", "GT": "LT", "GE": "LE", "EQ": "EQ", "NE": "NE"}[h]
+        return []
     if not truth:
         h = NEG[h]
-    c = a.args[0]
-    if b == 0:
-        return (c, {"EQ": "zero", "LE": "zero", "NE": "nonzero", "GT": "nonzero"}.get(h, "other"), b)
-    if b == 1 and h in ("LT", "GE"):
-        return (c, "zero" if h == "LT" else "nonzero", b)
-    return (c, {"EQ": "eq", "NE": "ne", "GE": "ge", "LT": "lt"}.get(h, "other"), b)
+    out = []
+    for a, b, hh in ((t.args[0], t.args[1], h), (t.args[1], t.args[0], _SWAP[h])):
+        if _head(a) != "COUNT":
+            continue
+        c = a.args[0]
+        if b == 0:
+            out.append((c, {"EQ": "zero", "LE": "zero", "NE": "nonzero", "GT": "nonzero"}.get(hh, "other"), b))
+        elif b == 1 and hh in ("LT", "GE"):
+            out.append((c, "zero" if hh == "LT" else "nonzero", b))
+        else:
+            out.append((c, {"EQ": "eq", "NE": "ne", "GE": "ge", "LT": "lt"}.get(hh, "other"), b))
+    return out
 
 
 def _int_bounds(cons, n, lo=0):
@@ -2760,32 +2834,45 @@ def _clip_path(agg, rv, st, w, A, W, NITER, NSIG, GE_, GI_, ALL, wmom_q):
     # -- why the loop ended: constraints about the keep selection on the final set
     reason = None
     unread = False
-    for t, truth in cons:
-        cf = _count_fact(t, truth)
-        if cf is None:
-            if _opaque_term(t, known):
-                unread = True       # a test this rule does not interpret may be what ended the loop
-            continue
+    def reading(cf):
+        """a count constraint read as a statement about the keep selection c: the set the selection was made from (owner), the keep
+        test when it is the selection on the final set, and whether the count is compared with the size of that set"""
         c, kind, other = cf
-        owner = None
+        owner, r = None, None
         for Ig, cg in gens:
             if c == cg:
                 owner = Ig
         if owner is None:
             r = keep_of(c, I)
+            if r is not None and r[1]:
+                owner = I
+        tracked = "n/a"
+        if owner is not None and kind in ("eq", "ne", "ge", "lt"):
+            tracked = None if _opaque_term(other, known) else sp.expand(other - _csize(owner)) == 0
+        return c, kind, other, owner, r, tracked
+    for t, truth in cons:
+        cfs = _count_facts(t, truth)
+        if not cfs:
+            if _opaque_term(t, known):
+                unread = True       # a test this rule does not interpret may be what ended the loop
+            continue
+        # (a relation between two counts is the same relation read from either side: the reading in which a keep selection is compared
+        # with the size of the set it was made from, when there is one, else the left-hand one)
+        reads = [reading(cf) for cf in cfs]
+        c, kind, other, owner, r, tracked = ([x for x in reads if x[5] is True] or reads)[0]
+        if owner is None or r is not None:
             if r is None or r[1] is None:
                 unread = True
             if r is not None:
                 agg.put("sigma_clip::strict-keep-test", r[0], r[2])
                 agg.put("sigma_clip::lock-step::next pass", r[1], r[2])
                 if r[1]:
-                    owner = I
                     if kind == "zero":
                         reason = "all clipped"
                     elif kind in ("eq", "ge") and sp.expand(other - _csize(I)) == 0:
                         reason = "no change"
-        if owner is not None and kind in ("eq", "ne", "ge", "lt"):
-            agg.put("sigma_clip::previous-count-tracked", None if _opaque_term(other, known) else sp.expand(other - _csize(owner)) == 0,
+        if tracked != "n/a":
+            agg.put("sigma_clip::previous-count-tracked", tracked,
                     lambda: "the number of points kept from the set %s is compared with %s" % (str(owner)[:80], other))
     lo, hi, nread = _int_bounds(cons, NITER, 0)
     if reason is not None:
